@@ -10,13 +10,13 @@ LEVEL = "fault_enumeration"
 TECHNIQUE = "deterministic simulation with fault injection at the exchange-call seam: per-instruction outcomes (SUCCESS / FAILURE x codes / TIMEOUT), shuffled or missing cancel reports, transport and API errors on any attempt (connection error before/after the exchange applied the request, HTTP 503, invalid JSON, APING error) and orders completing between request and response are injected into the real BetfairExecution under a seeded scheduler (World B) and as market states at execution time into the real SimulatedExecution (World A); order progress, retry budget, transaction counts and report attribution are checked after the drain"
 BUDGET = {"quick": {"runs": 7000, "wall": 45}, "thorough": {"runs": 350000, "wall": 900}}
 RULE = (
-    "one evaluation = one seeded session; 60% live sessions with a fault plan over the first 30 API calls (45% of the calls carry a fault: per-instruction report assignment over {SUCCESS, TIMEOUT, FAILURE x 5 codes}, "
+    "one evaluation = one seeded session; 40% systematic cells of the enumerated fault space, 25% sampled live sessions with a fault plan over the first 30 API calls (45% of the calls carry a fault: per-instruction report assignment over {SUCCESS, TIMEOUT, FAILURE x 5 codes}, "
     "transport fault kind x attempt, shuffled/omitted cancel reports, runs of faults that exhaust the retry budget), packages of 1-3 orders of each kind, exchange-side fills/lapses between request and response; "
-    "40% backtests where packages are executed against suspended/closed markets, removed runners, version mismatches and orders that completed inside the latency window; non-trivial = a non-SUCCESS outcome or a "
+    "35% backtests where packages are executed against suspended/closed markets, removed runners, version mismatches and orders that completed inside the latency window; non-trivial = a non-SUCCESS outcome or a "
     "transport fault was injected (live) / a response was applied after the order completed (simulated); distinct = distinct scenario digests"
 )
 ASSUMPTIONS = [
-    "sampled, not exhaustive: fault assignments are drawn per API call from the seed (the systematic sweep of the design is approximated by the per-cell probes reported in the evidence)",
+    "40% of the evaluations walk the enumerated fault space cell by cell (index i -> cell i mod 9408: kind x package of 1-2 orders x assignment of {SUCCESS, TIMEOUT, FAILURE x 5 codes} x transport fault kind x 1..4 faulted attempts x order completed between request and response), each under one seeded schedule; the thorough tier covers every cell several times, the quick tier a prefix (40% of its evaluations); the rest is sampled (packages of 3, mixed sessions, World A)",
     "retry budget: 1 call + 3 retries (BaseOrderPackage._max_retries)",
     "a placement is 'still possibly accepted' (PENDING allowed) when every attempt ended with a transport fault after the request had left, a TIMEOUT report, or it was placed async",
     "Betdaq execution is outside, as the property states",
@@ -56,8 +56,69 @@ class C12Transactions(TransactionMonitor):
 SIM_MONITORS = [LedgerMonitor, SimProgressMonitor, C12Transactions]
 
 
+def directed_sim_package(rng):
+    """World A: a transaction sends 2-3 requests of one kind; inside the (long) latency the FIRST order of the package
+    is completed by traded volume, so the package is executed with a completed order in front."""
+    from .. import marketgen
+    from ..marketgen import TICKS
+
+    kind = rng.choice(["cancel", "update", "replace"])
+    n = rng.choice([2, 3])
+    knobs = {"n_updates": (10, 12), "p_removal": 0.0, "p_suspend": 0.0, "p_inplay": 0.0, "p_close": rng.choice([0.0, 1.0]), "n_runners": (2, 3), "dyadic": True, "p_trade": 0.0}
+    m = marketgen.gen_market(rng, 0, knobs)
+    sel = m["runners"][0]
+    # a quiet, fixed book on the runner so that the resting orders are only touched by the volume we add
+    lay0 = 3.0
+    for u in m["updates"]:
+        rs = u["r"][str(sel)]
+        rs["atb"], rs["atl"], rs["trd"], rs["ltp"] = [[2.5, 40.0]], [[4.0, 40.0]], [], None
+    prices = [3.0, 3.25, 3.5][:n]
+    sizes = [float(rng.choice([2, 3, 4])) for _ in range(n)]
+    places = [{"op": "place", "sel": sel, "side": "BACK", "type": "LIMIT", "price": p, "size": s_, "persistence": rng.choice(["LAPSE", "PERSIST"])} for p, s_ in zip(prices, sizes)]
+    m["updates"][1]["acts"] = {"S0": [{"op": "txn", "acts": places}]}
+    reqs = []
+    for k in range(n):
+        a = {"op": kind, "order": k}
+        if kind == "update":
+            a["pt"] = "MARKET_ON_CLOSE" if k % 2 else "PERSIST"
+        if kind == "replace":
+            a["price"] = [3.75, 3.9, 3.95][k]
+        reqs.append(a)
+    m["updates"][5]["acts"] = {"S0": [{"op": "txn", "acts": reqs}]}
+    # volume through the first order's price right after the request (inside the latency)
+    vol = 2 * (sizes[0] + 1.0)
+    for u in m["updates"][6:]:
+        if u["st"] != "CLOSED":
+            u["r"][str(sel)]["trd"] = [[3.0, vol]]
+            u["r"][str(sel)]["ltp"] = 3.0
+    lat = rng.choice([2.0, 4.0, 8.0])
+    sc = {
+        "world": "A",
+        "cfg": {"place_latency": 0.0, "cancel_latency": lat, "update_latency": lat, "replace_latency": lat},
+        "clients": [{"bpe": True}],
+        "markets": [m],
+        "strategies": [{"name": "S0", "markets": [0], "client": 0, "max_live_trade_count": 20, "max_order_exposure": 500, "max_selection_exposure": 5000}],
+        "directed": "package-with-order-completed-inside-latency:%s" % kind,
+    }
+    # make sure at least one update lies beyond the latency
+    t_req = m["updates"][5]["pt"]
+    last_open = [u for u in m["updates"] if u["st"] != "CLOSED"][-1]
+    if (last_open["pt"] - t_req) / 1000.0 <= lat:
+        shift = int(lat * 1000) + 500
+        for u in m["updates"][7:]:
+            u["pt"] += shift
+    return sc
+
+
 def generate(rng, i, tier):
-    if rng.random() < 0.6:
+    x = rng.random()
+    if x > 0.88:
+        return directed_sim_package(rng)
+    if x < 0.4:
+        # systematic part: cell i of the enumerated fault space (kind x package size x per-instruction outcome
+        # assignment x transport fault kind x number of faulted attempts x completion between request and response)
+        return livegen.gen_c12_systematic(rng, i)
+    if x < 0.65:
         return livegen.gen_live(rng, "C12")
     sc = lifecycle_common.scenario(rng, "C12")
     sc["world"] = "A"
@@ -66,7 +127,14 @@ def generate(rng, i, tier):
 
 def execute(scenario):
     if scenario.get("world") == "B":
-        return live.run_scenario(scenario, LIVE_MONITORS, owner=ID)
+        res = live.run_scenario(scenario, LIVE_MONITORS, owner=ID)
+        if scenario.get("cell"):
+            c = scenario["cell"]
+            res.probes["c12.cell.%s.n%d.%s.attempts%d%s" % (c[0], c[1], c[3] or "no-transport-fault", c[4], ".completed-between" if c[5] else "")] += 1
+            import zlib
+
+            res.states.add(zlib.crc32(repr(c).encode()))
+        return res
     return backtest.run_scenario(scenario, SIM_MONITORS, owner=ID)
 
 
@@ -80,3 +148,11 @@ def shrink(scenario, test, deadline):
     if scenario.get("world") == "B":
         return C11.shrink_live(scenario, test, deadline)
     return common.shrink(scenario, test, deadline)
+
+
+def evidence_extra(agg):
+    cells = sum(1 for k in agg["probes"] if k.startswith("c12.cell."))
+    return {
+        "fault_space": {"cells_total": livegen.c12_space_size(), "cell_classes_hit(kind,n,transport,attempts,completed)": cells, "distinct_cells_or_states_hit": len(agg["states"])},
+        "exhaustive": False,
+    }
